@@ -5,6 +5,10 @@ HOME = os.path.dirname(os.path.dirname(os.path.abspath(__file__)))
 sys.path.insert(0, HOME)
 
 CHECKS = {
+ "C04": dict(engine="E4 sweep + E3 probe bus", technique="runtime monitor comparing the two real C potentials at identical arguments with directed maximisation of true/bound (hill climbing to the critical set), passive decision monitor on every thinned event of real runs (recorded uniform draw, warning call, velocities; rates recomputed at event positions), scripted-uniform unit driver",
+    level="exploration", ref="DESIGN.md §3 C04",
+    text="1e5..1e6 separations (uniform, face/edge/corner/origin-stratified) plus coordinate hill climbing reach the critical set (max ratio 0.999902 at the centre of a transverse edge, required >= 0.9995) for the constructors' default prefactors, the shipped 332/531.2 pair, and pickled / deep-copied clones; in runs of all shipped Coulomb configurations every thinned event is checked: upper limit of the draw = bounding rate, confirmed iff u < real, unconfirmed events change no velocity, bound >= real for the scaled 1/r bound, both rates recomputed by the monitor; the two-leaf-unit handler is driven with u on a grid around the ratio.",
+    note="Estimator-based cell bounds and the piecewise-constant heuristic bound are not claimed to be true bounds: their exceedances are counted, not judged. Correctness of each derivative is C03's subject."),
  "C03": dict(engine="E4 contract sweep + E1 native", technique="runtime contract monitor on the real derivative() methods against Richardson finite differences of independent energy functions (own Ewald energy with two splittings), metamorphic relations on the real code, bitwise clone (copy/deepcopy/pickle/dill) comparison, ASan+UBSan build and valgrind driver for the C lattice sum",
     level="exploration", ref="DESIGN.md §3 C03",
     text="Tens of thousands of (potential, separation, direction, charges, speed) cases incl. points 1e-12..1e-3 L from faces/edges/corners, near the origin, on axes/diagonals: inverse power, LJ, displaced even power, periodic 1/r bound, bending (three derivatives, sum zero) and the merged-image Coulomb potential are compared with gradients of independently written energies; the lattice sum must not depend on the Ewald splitting, be periodic across faces, odd, transverse-symmetric, permutation-consistent, linear in charges and speed, and scale with the box; all ways of cloning the C object must agree bit for bit; cut-offs 0..12 are constructed/copied/destroyed under ASan and valgrind.",
